@@ -524,6 +524,235 @@ __CPROVER_assigns(g_simp, g_nsimp, g_next, g_nnext, g_cols, g_ncols, g_cur, g_po
                             "  for (int s = 0; s < NSI; s++) { g_ncof[s] = nondet_uint(); g_simp[s].index = s; }", "assemble_columns_to_reduce(in_dim);"),
                   desc="assemble_columns_to_reduce: while dim < dim_max the round's simplices are replaced by ALL the cofacets the enumerators yield, in order (they are the next round's simplices - otherwise they are left alone); the columns to reduce are exactly the cofacets that are neither in a zero apparent pair nor already pivots, previous content discarded, sorted once as a whole"))
 
+def full_matrix_units(U):
+    """Full_distance_matrix: construction from any matrix + operator() = the same dissimilarity (transposed storage);
+    Compressed_sparse_matrix_ (columns of the reduction matrix): append_column / push_back / subrange bookkeeping."""
+    NV = 4
+    G = ND + f"""
+typedef int vertex_t; typedef float value_t;
+#define NV {NV}
+value_t g_mat[NV][NV]; vertex_t g_n; value_t distances[NV * NV]; vertex_t n; size_t g_alloc; size_t g_pa, g_pb;
+static value_t vp_mat(vertex_t i, vertex_t j) {{ __CPROVER_assert(i >= 0 && j >= 0 && i < g_n && j < g_n, "mat(i, j) within the source matrix"); return g_mat[i][j]; }}
+static value_t* acc_dist(size_t k) {{ __CPROVER_assert(k < g_alloc && k < NV * NV, "distances[...] within the allocated n*n entries"); return &distances[k]; }}
+#define DIST(k) (*acc_dist(k))
+"""
+    f_size = Fn(RP, r"vertex_t size\(\) const", "fm_size", "", within=r"struct Full_distance_matrix \{")
+    f_ctor = Fn(RP, r"Full_distance_matrix\(const DistanceMatrix& mat\)\s*: distances", "fm_construct", """
+__CPROVER_requires(g_n >= 0 && g_n <= NV && g_pa < (size_t)g_n && g_pb < (size_t)g_n)
+__CPROVER_ensures(n == g_n && g_alloc == (size_t)g_n * (size_t)g_n)
+__CPROVER_ensures(distances[g_pa * (size_t)n + g_pb] == g_mat[g_pa][g_pb] || g_mat[g_pa][g_pb] != g_mat[g_pa][g_pb])
+__CPROVER_assigns(distances, n, g_alloc)
+""", within=r"struct Full_distance_matrix \{", sig_subs=[(r"\(const DistanceMatrix& mat\)", "(void)")],
+                subs=[(r"std::size_t", "size_t", 0), (r"distances = ([^;]*);", r"g_alloc = \1;"), (r"mat\.size\(\)", "g_n"), (r"\bmat\(", "vp_mat("), (r"distances\[([^\]]*)\]", r"DIST(\1)"), (r"\bsize\(\)", "fm_size()")],
+                canary=(r"DIST\(i \* n \+ j\)", "DIST(i * n + i)"))
+    U.append(Unit("full_matrix.construct", "C11", [f_size, f_ctor], enforce="fm_construct", globals_=G, unwind=NV + 2, route="B",
+                  bound=f"at most {NV} points; entries symbolic", inputs=["g_n", "g_pa", "g_pb"],
+                  harness=H("  g_n = nondet_int(); g_pa = nondet_ulong(); g_pb = nondet_ulong();", "fm_construct();"),
+                  desc="Full_distance_matrix(mat): allocates n*n entries, reads only entries of the source matrix, and stores mat(a, b) at a*n + b for every pair (ghost probe)"))
+    f_at = Fn(RP, r"value_t operator\(\)\(const vertex_t j, const vertex_t i\) const", "fm_at", """
+__CPROVER_requires(n >= 1 && n <= NV && g_alloc == (size_t)n * (size_t)n && @1@ >= 0 && @1@ < n && @2@ >= 0 && @2@ < n)
+__CPROVER_ensures(__CPROVER_return_value == distances[(size_t)@2@ * (size_t)n + (size_t)@1@] || distances[(size_t)@2@ * (size_t)n + (size_t)@1@] != distances[(size_t)@2@ * (size_t)n + (size_t)@1@])
+__CPROVER_assigns()
+""", within=r"struct Full_distance_matrix \{", sig_subs=[(r"operator\(\)", "fm_at")], subs=[(r"distances\[([^\]]*)\]", r"DIST(\1)")],
+              canary=(r"DIST\(i \* n \+ j\)", "DIST(j * n + j)"))
+    U.append(Unit("full_matrix.at", "C11", [f_at], enforce="fm_at", globals_=G, inputs=["in_a", "in_b", "n"],
+                  harness=H("  vertex_t in_a = nondet_int(), in_b = nondet_int(); n = nondet_int(); g_alloc = nondet_ulong();", "fm_at(in_a, in_b);"),
+                  desc="Full_distance_matrix::operator()(a, b): reads the entry stored at b*n + a, inside the allocation - with the constructor's layout this is mat(b, a), the same dissimilarity for a symmetric input"))
+    # Compressed_sparse_matrix_: bounds[k] = end of column k in entries
+    NE = 6
+    G2 = ND + f"""
+#define NE {NE}
+size_t bounds[NE]; size_t bounds_n; size_t entries_n; unsigned long g_last;
+static size_t* acc_b(size_t k) {{ __CPROVER_assert(k < bounds_n && k < NE, "bounds[...] within the vector"); return &bounds[k]; }}
+"""
+    f_app = Fn(RP, r"void append_column\(\)", "csm_append_column", """
+__CPROVER_requires(bounds_n < NE && (bounds_n == 0 || bounds[bounds_n - 1] == entries_n))
+__CPROVER_ensures(bounds_n == __CPROVER_old(bounds_n) + 1 && bounds[bounds_n - 1] == entries_n && entries_n == __CPROVER_old(entries_n))
+__CPROVER_assigns(bounds_n, bounds[bounds_n])
+""", within=r"class Compressed_sparse_matrix_ \{", subs=[(r"bounds\.push_back\(entries\.size\(\)\);", "bounds[bounds_n] = entries_n; bounds_n++;")],
+               canary=(r"= entries_n;", "= entries_n + 1;"))
+    U.append(Unit("compressed_sparse_matrix.append_column", "C11", [f_app], enforce="csm_append_column", globals_=G2, inputs=["bounds_n", "entries_n"],
+                  harness=H("  bounds_n = nondet_ulong(); entries_n = nondet_ulong();", "csm_append_column();"),
+                  desc="Compressed_sparse_matrix_::append_column: opens a new, empty column ending at the current number of entries"))
+    f_pb = Fn(RP, r"void push_back\(const ValueType e\)", "csm_push_back", """
+__CPROVER_requires(bounds_n >= 1 && bounds_n <= NE && bounds[bounds_n - 1] == entries_n && entries_n < 1000000)
+__CPROVER_ensures(entries_n == __CPROVER_old(entries_n) + 1 && bounds[bounds_n - 1] == entries_n && g_last == e && bounds_n == __CPROVER_old(bounds_n))
+__CPROVER_assigns(entries_n, g_last, bounds[bounds_n - 1])
+""", within=r"class Compressed_sparse_matrix_ \{", sig_subs=[(r"const ValueType", "unsigned long")],
+              subs=[(r"bounds\.size\(\)", "bounds_n"), (r"entries\.push_back\((\w+)\);", r"g_last = \1; entries_n++;"), (r"\+\+bounds\.back\(\);", "++(*acc_b(bounds_n - 1));")],
+              canary=(r"\+\+\(\*acc_b\(bounds_n - 1\)\);", ";"))
+    U.append(Unit("compressed_sparse_matrix.push_back", "C11", [f_pb], enforce="csm_push_back", globals_=G2, inputs=["bounds_n", "entries_n", "in_e"],
+                  harness=H("  bounds_n = nondet_ulong(); entries_n = nondet_ulong(); unsigned long in_e = nondet_ulong();", "csm_push_back(in_e);"),
+                  desc="Compressed_sparse_matrix_::push_back: the entry goes to the end of the last column, whose end marker moves with it (the last marker always equals the number of entries); its own GUDHI_assert (a column is open) holds"))
+
+OPT_SUBS = [(r"std::optional<diameter_entry_t>", "vp_opt", 0), (r"const diameter_entry_t\b", "dentry", 0), (r"\bdiameter_entry_t\b", "dentry", 0),
+            (r"std::nullopt", "VP_NONE", 0),
+            (r"if \(!(\w+)\) (break|return)", r"if (!\1.has) \2", 0), (r"if \(!(\w+) \|\| ", r"if (!\1.has || ", 0),
+            (r"return \*(\w+);", r"return \1;", 0),
+            (r"get_diameter\(\*(\w+)\)", r"\1.diam", 0), (r"get_diameter\((\w+)\)", r"\1.diam", 0),
+            (r"filt\.get_index\(\*(\w+)\)", r"\1.id", 0), (r"filt\.get_index\((\w+)\)", r"\1.id", 0),
+            (r"\(\*(\w+), dim ([-+]) 1\)", r"(VP_ENTRY(\1), dim \2 1)", 0),
+            (r"facets\.set_simplex\(", "fac_set_simplex(", 0), (r"facets\.next\(\)", "fac_next()", 0),
+            (r"cofacets1\.set_simplex\(", "cof_set_simplex(", 0), (r"cofacets1\.next_raw\(\)", "cof_next_raw()", 0)]
+
+APP_GLUE = ND + """
+typedef float value_t; typedef signed char dimension_t; typedef unsigned long simplex_t;
+typedef struct { value_t diam; simplex_t id; } dentry;                  /* diameter_entry_t: (diameter, index) */
+typedef struct { bool has; value_t diam; simplex_t id; } vp_opt;        /* std::optional<diameter_entry_t> */
+#define VP_NONE ((vp_opt){false, 0, 0})
+#define VP_ENTRY(o) ((dentry){(o).diam, (o).id})
+#define KE 4
+/* ghost enumerators: the facets / raw cofacets of the simplex given to set_simplex, in enumeration order */
+dentry g_fac[KE]; unsigned g_nfac, g_fpos; dentry g_cof[KE]; unsigned g_ncof, g_cpos;
+simplex_t g_fset_id; dimension_t g_fset_dim; unsigned g_fset_calls; simplex_t g_cset_id; dimension_t g_cset_dim; unsigned g_cset_calls;
+static void fac_set_simplex(dentry s, dimension_t d) { g_fset_id = s.id; g_fset_dim = d; g_fset_calls++; g_fpos = 0; }
+static vp_opt fac_next(void) { vp_opt r; r.has = g_fpos < g_nfac; r.diam = r.has ? g_fac[g_fpos].diam : 0; r.id = r.has ? g_fac[g_fpos].id : 0; if (r.has) g_fpos++; return r; }
+static void cof_set_simplex(dentry s, dimension_t d) { g_cset_id = s.id; g_cset_dim = d; g_cset_calls++; g_cpos = 0; }
+static vp_opt cof_next_raw(void) { vp_opt r; r.has = g_cpos < g_ncof; r.diam = r.has ? g_cof[g_cpos].diam : 0; r.id = r.has ? g_cof[g_cpos].id : 0; if (r.has) g_cpos++; return r; }
+/* specification: position of the first enumerated element whose diameter equals d (count if none) */
+static unsigned x_first_same_fac(value_t d) { unsigned r = g_nfac; for (unsigned k = KE; k-- > 0;) if (k < g_nfac && g_fac[k].diam == d) r = k; return r; }
+static unsigned x_first_same_cof(value_t d) { unsigned r = g_ncof; for (unsigned k = KE; k-- > 0;) if (k < g_ncof && g_cof[k].diam == d) r = k; return r; }
+/* answers of the two pivot helpers when they are replaced by their contracts */
+vp_opt g_zpc, g_zpf; simplex_t g_zpc_id, g_zpf_id; dimension_t g_zpc_dim, g_zpf_dim; unsigned g_zpc_calls, g_zpf_calls;
+vp_opt get_zero_pivot_cofacet(dentry simplex, dimension_t dim); vp_opt get_zero_pivot_facet(dentry simplex, dimension_t dim);
+vp_opt g_zac, g_zaf; unsigned g_zac_calls, g_zaf_calls; simplex_t g_zac_id, g_zaf_id; dimension_t g_zac_dim, g_zaf_dim;
+"""
+
+
+def apparent_units(U):
+    """zero pivot facet / cofacet, zero apparent facet / cofacet, is_in_zero_apparent_pair: the implicit apparent pairs
+    of Ripser (a simplex and a cofacet of the same diameter that are each other's first such (co)facet)."""
+    H2 = lambda decls, call: H(decls, call)   # noqa: E731
+    sel_zpf = r"std::optional<diameter_entry_t> get_zero_pivot_facet\(const diameter_entry_t simplex, const dimension_t dim\)"
+    sel_zpc = r"std::optional<diameter_entry_t> get_zero_pivot_cofacet\(const diameter_entry_t simplex, const dimension_t dim\)"
+    sel_zaf = r"std::optional<diameter_entry_t> get_zero_apparent_facet\(const diameter_entry_t simplex, const dimension_t dim\)"
+    sel_zac = r"std::optional<diameter_entry_t> get_zero_apparent_cofacet\(const diameter_entry_t simplex, const dimension_t dim\)"
+    SS = [(r"std::optional<diameter_entry_t>", "vp_opt", 0), (r"const diameter_entry_t", "dentry"), (r"const dimension_t", "dimension_t")]
+    init = "  dentry in_s; in_s.diam = nondet_float(); in_s.id = nondet_ulong(); dimension_t in_dim = (dimension_t)nondet_int();\n  g_fset_calls = 0; g_cset_calls = 0; g_zpc_calls = 0; g_zpf_calls = 0; g_zac_calls = 0; g_zaf_calls = 0;\n  g_zpc.has = nondet_int() != 0; g_zpf.has = nondet_int() != 0; g_zac.has = nondet_int() != 0; g_zaf.has = nondet_int() != 0;   /* proper 0/1 bools */"
+    for which, sel, arr, n, setid, setdim, setcalls in (("facet", sel_zpf, "g_fac", "g_nfac", "g_fset_id", "g_fset_dim", "g_fset_calls"),
+                                                        ("cofacet", sel_zpc, "g_cof", "g_ncof", "g_cset_id", "g_cset_dim", "g_cset_calls")):
+        con = f"""
+__CPROVER_requires({n} <= KE && {setcalls} == 0 && simplex.diam == simplex.diam)
+__CPROVER_ensures(__CPROVER_return_value.has == (x_first_same_{which[:3]}(simplex.diam) < {n}))
+__CPROVER_ensures(!__CPROVER_return_value.has || (__CPROVER_return_value.id == {arr}[x_first_same_{which[:3]}(simplex.diam)].id && __CPROVER_return_value.diam == simplex.diam))
+__CPROVER_ensures({setcalls} == 1 && {setid} == simplex.id && {setdim} == dim)
+__CPROVER_assigns(g_fpos, g_cpos, g_fset_id, g_fset_dim, g_fset_calls, g_cset_id, g_cset_dim, g_cset_calls)
+"""
+        fn = Fn(RP, sel, f"get_zero_pivot_{which}", con, sig_subs=SS, subs=OPT_SUBS, canary=(r"(\.diam == simplex\.diam\)) return \w+;", r"\1 return VP_NONE;"))
+        U.append(Unit(f"apparent.zero_pivot_{which}", "C11", [fn], enforce=f"get_zero_pivot_{which}", globals_=APP_GLUE, unwind=6, route="B", runs=[Run(backend="z3", timeout=300)],
+                      bound="at most 4 (co)facets enumerated per simplex (a simplex of dimension <= 3, or <= 4 candidate cofacets); diameters and ids symbolic",
+                      inputs=["in_s", "in_dim", n], harness=H2(init, f"get_zero_pivot_{which}(in_s, in_dim);"),
+                      desc=f"get_zero_pivot_{which}: the FIRST {which} in enumeration order whose diameter equals the simplex's, or nothing; the enumerator is set on (simplex, dim) once"))
+    # the two apparent-pair helpers with the pivot helpers replaced by their (ghost-answer) contracts
+    stub_zpc = Fn(RP, sel_zpc, "get_zero_pivot_cofacet", """
+__CPROVER_ensures(__CPROVER_return_value.has == g_zpc.has && __CPROVER_return_value.id == g_zpc.id && __CPROVER_return_value.diam == g_zpc.diam)
+__CPROVER_ensures(g_zpc_calls == __CPROVER_old(g_zpc_calls) + 1 && g_zpc_id == simplex.id && g_zpc_dim == dim)
+__CPROVER_assigns(g_zpc_calls, g_zpc_id, g_zpc_dim)
+""", sig_subs=SS, subs=OPT_SUBS)
+    stub_zpf = Fn(RP, sel_zpf, "get_zero_pivot_facet", """
+__CPROVER_ensures(__CPROVER_return_value.has == g_zpf.has && __CPROVER_return_value.id == g_zpf.id && __CPROVER_return_value.diam == g_zpf.diam)
+__CPROVER_ensures(g_zpf_calls == __CPROVER_old(g_zpf_calls) + 1 && g_zpf_id == simplex.id && g_zpf_dim == dim)
+__CPROVER_assigns(g_zpf_calls, g_zpf_id, g_zpf_dim)
+""", sig_subs=SS, subs=OPT_SUBS)
+    con_zac = """
+__CPROVER_requires(g_zpc_calls == 0 && g_zpf_calls == 0 && dim >= 0 && dim < 100)
+__CPROVER_ensures(__CPROVER_return_value.has == (g_zpc.has && g_zpf.has && g_zpf.id == simplex.id))
+__CPROVER_ensures(!__CPROVER_return_value.has || (__CPROVER_return_value.id == g_zpc.id && __CPROVER_return_value.diam == g_zpc.diam))
+__CPROVER_ensures(g_zpc_calls == 1 && g_zpc_id == simplex.id && g_zpc_dim == dim)
+__CPROVER_ensures(!g_zpc.has || (g_zpf_calls == 1 && g_zpf_id == g_zpc.id && g_zpf_dim == dim + 1))
+__CPROVER_assigns(g_zpc_calls, g_zpc_id, g_zpc_dim, g_zpf_calls, g_zpf_id, g_zpf_dim)
+"""
+    f_zac = Fn(RP, sel_zac, "get_zero_apparent_cofacet", con_zac, sig_subs=SS, subs=OPT_SUBS, canary=(r"cofacet\.has \|\| facet|!facet\.has \|\| ", "0 || "))
+    U.append(Unit("apparent.zero_apparent_cofacet", "C11", [stub_zpc, stub_zpf, f_zac], enforce="get_zero_apparent_cofacet",
+                  replace=["get_zero_pivot_cofacet", "get_zero_pivot_facet"], globals_=APP_GLUE, inputs=["in_s", "in_dim", "g_zpc", "g_zpf"],
+                  harness=H2(init, "get_zero_apparent_cofacet(in_s, in_dim);"),
+                  desc="get_zero_apparent_cofacet: the zero pivot cofacet c of the simplex, provided the zero pivot facet of c (one dimension up) is the simplex itself; nothing otherwise"))
+    con_zaf = """
+__CPROVER_requires(g_zpc_calls == 0 && g_zpf_calls == 0 && dim >= 1 && dim < 100)
+__CPROVER_ensures(__CPROVER_return_value.has == (g_zpf.has && g_zpc.has && g_zpc.id == simplex.id))
+__CPROVER_ensures(!__CPROVER_return_value.has || (__CPROVER_return_value.id == g_zpf.id && __CPROVER_return_value.diam == g_zpf.diam))
+__CPROVER_ensures(g_zpf_calls == 1 && g_zpf_id == simplex.id && g_zpf_dim == dim)
+__CPROVER_ensures(!g_zpf.has || (g_zpc_calls == 1 && g_zpc_id == g_zpf.id && g_zpc_dim == dim - 1))
+__CPROVER_assigns(g_zpc_calls, g_zpc_id, g_zpc_dim, g_zpf_calls, g_zpf_id, g_zpf_dim)
+"""
+    stub_zpc2 = Fn(RP, sel_zpc, "get_zero_pivot_cofacet", stub_zpc.contract, sig_subs=SS, subs=OPT_SUBS)
+    stub_zpf2 = Fn(RP, sel_zpf, "get_zero_pivot_facet", stub_zpf.contract, sig_subs=SS, subs=OPT_SUBS)
+    f_zaf = Fn(RP, sel_zaf, "get_zero_apparent_facet", con_zaf, sig_subs=SS, subs=OPT_SUBS, canary=(r"!cofacet\.has \|\| ", "0 || "))
+    U.append(Unit("apparent.zero_apparent_facet", "C11", [stub_zpc2, stub_zpf2, f_zaf], enforce="get_zero_apparent_facet",
+                  replace=["get_zero_pivot_cofacet", "get_zero_pivot_facet"], globals_=APP_GLUE, inputs=["in_s", "in_dim", "g_zpc", "g_zpf"],
+                  harness=H2(init, "get_zero_apparent_facet(in_s, in_dim);"),
+                  desc="get_zero_apparent_facet: the zero pivot facet f of the simplex, provided the zero pivot cofacet of f (one dimension down) is the simplex itself; nothing otherwise"))
+    # is_in_zero_apparent_pair
+    stub_zac = Fn(RP, sel_zac, "get_zero_apparent_cofacet", """
+__CPROVER_ensures(__CPROVER_return_value.has == g_zac.has && g_zac_calls == __CPROVER_old(g_zac_calls) + 1 && g_zac_id == simplex.id && g_zac_dim == dim)
+__CPROVER_assigns(g_zac_calls, g_zac_id, g_zac_dim)
+""", sig_subs=SS, subs=OPT_SUBS)
+    stub_zaf = Fn(RP, sel_zaf, "get_zero_apparent_facet", """
+__CPROVER_ensures(__CPROVER_return_value.has == g_zaf.has && g_zaf_calls == __CPROVER_old(g_zaf_calls) + 1 && g_zaf_id == simplex.id && g_zaf_dim == dim)
+__CPROVER_assigns(g_zaf_calls, g_zaf_id, g_zaf_dim)
+""", sig_subs=SS, subs=OPT_SUBS)
+    f_in = Fn(RP, r"bool is_in_zero_apparent_pair\(const diameter_entry_t simplex, const dimension_t dim\)", "is_in_zero_apparent_pair", """
+__CPROVER_requires(g_zac_calls == 0 && g_zaf_calls == 0)
+__CPROVER_ensures(__CPROVER_return_value == (g_zac.has || g_zaf.has))
+__CPROVER_ensures((g_zac_calls == 0 || (g_zac_id == simplex.id && g_zac_dim == dim)) && (g_zaf_calls == 0 || (g_zaf_id == simplex.id && g_zaf_dim == dim)))
+__CPROVER_assigns(g_zac_calls, g_zac_id, g_zac_dim, g_zaf_calls, g_zaf_id, g_zaf_dim)
+""", sig_subs=SS, subs=OPT_SUBS + [(r"(get_zero_apparent_\w+\(simplex, dim\))", r"\1.has")], canary=(r"\.has \|\| ", ".has && "))
+    U.append(Unit("apparent.is_in_zero_apparent_pair", "C11", [stub_zac, stub_zaf, f_in], enforce="is_in_zero_apparent_pair",
+                  replace=["get_zero_apparent_cofacet", "get_zero_apparent_facet"], globals_=APP_GLUE, inputs=["in_s", "in_dim", "g_zac", "g_zaf"],
+                  harness=H2(init, "is_in_zero_apparent_pair(in_s, in_dim);"),
+                  desc="is_in_zero_apparent_pair: true exactly when the simplex has a zero apparent cofacet or a zero apparent facet (asked about this simplex, this dimension)"))
+
+def dim0_units(U):
+    """compute_dim_0_pairs, loop body (one edge in increasing order): Kruskal step with the apparent-pair shortcut."""
+    G = APP_GLUE + """
+typedef int vertex_t; typedef struct { value_t diameter; simplex_t index; } diameter_simplex_t;
+#define NVX 8
+dimension_t dim_max; vertex_t n;
+vertex_t g_v0, g_v1; vertex_t g_root[NVX]; simplex_t g_ev_id; unsigned g_ev_calls;
+unsigned g_link_calls; vertex_t g_link_a, g_link_b; unsigned g_out_calls; int g_out_dim; value_t g_out_d; unsigned g_push_calls; diameter_simplex_t g_pushed;
+#define VP_MK(e) ((dentry){(e).diameter, (e).index})                 /* filt.make_diameter_entry(e, 1): coefficient dropped */
+static void vp_edge_vertices(simplex_t id, vertex_t* voe) { g_ev_id = id; g_ev_calls++; voe[0] = g_v0; voe[1] = g_v1; }   /* get_simplex_vertices(index, 1, n, rbegin) */
+static vertex_t uf_find(vertex_t x) { __CPROVER_assert(x >= 0 && x < NVX, "vertex"); return g_root[x]; }
+static void uf_link(vertex_t a, vertex_t b) { g_link_calls++; g_link_a = a; g_link_b = b; }
+static void output_pair(int d, value_t v) { g_out_calls++; g_out_dim = d; g_out_d = v; }
+static void cols_push(diameter_simplex_t e) { g_push_calls++; g_pushed = e; }
+vp_opt get_zero_apparent_cofacet(dentry simplex, dimension_t dim); vp_opt get_zero_apparent_facet(dentry simplex, dimension_t dim);
+"""
+    SS = [(r"std::optional<diameter_entry_t>", "vp_opt", 0), (r"const diameter_entry_t", "dentry"), (r"const dimension_t", "dimension_t")]
+    stubs = []
+    for nm, g in (("get_zero_pivot_cofacet", "g_zpc"), ("get_zero_pivot_facet", "g_zpf"), ("get_zero_apparent_cofacet", "g_zac"), ("get_zero_apparent_facet", "g_zaf")):
+        stubs.append(Fn(RP, rf"std::optional<diameter_entry_t> {nm}\(const diameter_entry_t simplex, const dimension_t dim\)", nm, f"""
+__CPROVER_ensures(__CPROVER_return_value.has == {g}.has && {g}_calls == __CPROVER_old({g}_calls) + 1 && {g}_id == simplex.id && {g}_dim == dim)
+__CPROVER_assigns({g}_calls, {g}_id, {g}_dim)
+""", sig_subs=SS, subs=OPT_SUBS))
+    con = """
+__CPROVER_requires(g_v0 >= 0 && g_v0 < NVX && g_v1 >= 0 && g_v1 < NVX && @e@.diameter == @e@.diameter)
+__CPROVER_requires(g_ev_calls == 0 && g_link_calls == 0 && g_out_calls == 0 && g_push_calls == 0 && g_zac_calls == 0 && g_zpc_calls == 0 && g_zpf_calls == 0 && g_zaf_calls == 0)
+__CPROVER_ensures(g_ev_calls == 1 && g_ev_id == @e@.index)
+__CPROVER_ensures(g_link_calls == (g_root[g_v0] != g_root[g_v1] ? 1 : 0) && (g_link_calls == 0 || (g_link_a == g_root[g_v0] && g_link_b == g_root[g_v1])))
+__CPROVER_ensures(g_out_calls == ((g_root[g_v0] != g_root[g_v1] && @e@.diameter != 0) ? 1 : 0) && (g_out_calls == 0 || (g_out_dim == 0 && g_out_d == @e@.diameter)))
+__CPROVER_ensures(g_push_calls == ((g_root[g_v0] == g_root[g_v1] && dim_max > 0 && !g_zac.has) ? 1 : 0) && (g_push_calls == 0 || (g_pushed.index == @e@.index && g_pushed.diameter == @e@.diameter)))
+__CPROVER_ensures(g_root[g_v0] != g_root[g_v1] || dim_max <= 0 || (g_zac_calls == 1 && g_zac_id == @e@.index && g_zac_dim == 1))
+__CPROVER_assigns(g_ev_id, g_ev_calls, g_link_calls, g_link_a, g_link_b, g_out_calls, g_out_dim, g_out_d, g_push_calls, g_pushed, g_zac_calls, g_zac_id, g_zac_dim, g_zpc_calls, g_zpc_id, g_zpc_dim, g_zpf_calls, g_zpf_id, g_zpf_dim, g_zaf_calls, g_zaf_id, g_zaf_dim)
+"""
+    fn = Fn(RP, r"void compute_dim_0_pairs\(std::vector<diameter_simplex_t>& edges,\s*std::vector<diameter_simplex_t>& columns_to_reduce, OutPair& output_pair\)", "dim0_step", con,
+            piece={"kind": "loop", "ordinal": 0, "sig": "void dim0_step(diameter_simplex_t @e@)"},
+            derive={"e": r"for \(auto (\w+) : edges\)"},
+            prologue="vertex_t vertices_of_edge[2];",
+            subs=[(r"filt\.get_simplex_vertices\(filt\.get_index\((\w+)\), 1, n, vertices_of_edge\.rbegin\(\)\);", r"vp_edge_vertices(\1.index, vertices_of_edge);"),
+                  (r"dset\.find\(", "uf_find("), (r"dset\.link\(", "uf_link("),
+                  (r"get_diameter\((\w+)\)", r"\1.diameter"),
+                  (r"!(get_zero_\w+)\(filt\.make_diameter_entry\((\w+), 1\), 1\)", r"!\1(VP_MK(\2), 1).has"),
+                  (r"columns_to_reduce\.push_back\(", "cols_push(")],
+            canary=(r"\.diameter != 0\)", ".diameter > 0)"))
+    U.append(Unit("reduction.compute_dim_0_pairs.step", "C11", stubs + [fn], enforce="dim0_step",
+                  replace=["get_zero_pivot_cofacet", "get_zero_pivot_facet", "get_zero_apparent_cofacet", "get_zero_apparent_facet"], globals_=G,
+                  inputs=["in_e", "g_v0", "g_v1", "dim_max", "g_root"], replay=replay_by_native_search,
+                  harness=H("  diameter_simplex_t in_e; in_e.diameter = nondet_float(); in_e.index = nondet_ulong(); g_v0 = nondet_int(); g_v1 = nondet_int(); dim_max = (dimension_t)nondet_int();\n"
+                            "  g_ev_calls = 0; g_link_calls = 0; g_out_calls = 0; g_push_calls = 0; g_zac_calls = 0; g_zpc_calls = 0; g_zpf_calls = 0; g_zaf_calls = 0;\n"
+                            "  g_zpc.has = nondet_int() != 0; g_zpf.has = nondet_int() != 0; g_zac.has = nondet_int() != 0; g_zaf.has = nondet_int() != 0;", "dim0_step(in_e);"),
+                  desc="compute_dim_0_pairs, one edge: if its endpoints lie in different components they are merged and (0, diameter) is streamed unless the diameter is 0; otherwise, when dim_max > 0, the edge becomes a column to reduce exactly when it has no zero apparent cofacet (asked for this edge, dimension 1)"))
+
 def enumerator_units(U):
     """dense Simplex_coboundary_enumerator_::next(): filters the raw cofacets by the threshold.  next_raw (the
     enumeration itself) is a ghost stub that yields an arbitrary finite sequence of candidates."""
@@ -785,6 +1014,9 @@ def units(tier):
     matrix_units(U)
     sparse_lookup_units(U)
     assemble_units(U)
+    full_matrix_units(U)
+    apparent_units(U)
+    dim0_units(U)
     return U
 
 
